@@ -615,10 +615,8 @@ func (s *rstate) eval(e gen.Expr) (interface{}, error) {
 		if e.Name == "_self" {
 			return selfVal{s.name}, nil
 		}
-		v, ok := s.lookup(e.Name)
-		if !ok {
-			return nil, merr("undefined variable %q", e.Name)
-		}
+		// an undefined variable is null (Twig's non-strict mode, which stick implements)
+		v, _ := s.lookup(e.Name)
 		return v, nil
 	case *gen.EGroup:
 		return s.eval(e.X)
@@ -684,6 +682,20 @@ func (s *rstate) eval(e gen.Expr) (interface{}, error) {
 			}
 			return s.callMacro(m, args)
 		}
+		if e.Fn == "probe" {
+			// probe('a','b',...) reports which names are visible and their values; it is the
+			// model's counterpart of a registered function that inspects Context.Scope().
+			var b strings.Builder
+			for _, a := range e.Args {
+				name := a.(*gen.EStr).S
+				if v, ok := s.lookup(name); ok {
+					b.WriteString(name + "=" + Str(v) + ";")
+				} else {
+					b.WriteString(name + "=U;")
+				}
+			}
+			return b.String(), nil
+		}
 		if !contains(FuncNames, e.Fn) {
 			return nil, merr("undeclared function %q", e.Fn)
 		}
@@ -734,7 +746,7 @@ func (s *rstate) eval(e gen.Expr) (interface{}, error) {
 				oor("fractional index")
 			}
 			if f < 0 || int(f) >= len(x) {
-				return nil, merr("index %v out of range", f)
+				return nil, nil // a missing attribute is null
 			}
 			return x[int(f)], nil
 		case map[string]interface{}:
@@ -742,13 +754,9 @@ func (s *rstate) eval(e gen.Expr) (interface{}, error) {
 			if !ok {
 				oor("hash key of type %T", k)
 			}
-			v, ok := x[ks]
-			if !ok {
-				return nil, merr("no key %q", ks)
-			}
-			return v, nil
+			return x[ks], nil // a missing attribute is null
 		case nil:
-			return nil, merr("attribute of null")
+			return nil, nil
 		}
 		oor("attribute access on %T", c)
 	case *gen.EMethod:
